@@ -287,6 +287,7 @@ def udp_monitor(case, line):
     buf = None           # [b, chunks_seen, stopped, alloc_len]
     nbuf = 0
     pend = []            # messages the kernel returned and recv_cb has not delivered yet
+    pend_stop = False    # uv_udp_recv_stop ran inside a chunk callback since
     nextmsg = 0
     toks = line.split()
     if not toks or toks[0] == "BADCASE":
@@ -360,7 +361,8 @@ def udp_monitor(case, line):
             mine = [s for s in handed if sq0 <= s < sq0 + cnt]
             want = list(range(sq0, sq0 + max(ret, 0)))
             if mine != want:
-                skipped = cnt > 20 and ret > 0 and mine[:20] == want[:20]
+                # any other deviation for a batch > 20 still shows as a disagreement with the model
+                skipped = cnt > 20 and ret > 0
                 bad.append((KEY_SKIP if skipped else None,
                             "uv_udp_try_send2 of %d datagrams returned %d but datagrams %s were handed to the OS"
                             % (cnt, ret, compress([s - sq0 for s in mine]))))
@@ -380,9 +382,9 @@ def udp_monitor(case, line):
             buf = [b, False, False, ln]
         elif c in "vV":
             ans = a.split("=", 1)[1]
-            if pend and not (buf and buf[2]):
+            if pend and not pend_stop:
                 bad.append((None, "%d received datagrams were never delivered" % len(pend)))
-            pend = []
+            pend, pend_stop = [], False
             if ans[0] != "E" and ans != "0":
                 for m in ans.split("/"):
                     i, ln, tr = [int(x) for x in m.split(":")]
@@ -423,7 +425,7 @@ def udp_monitor(case, line):
         elif c == "Q":
             if buf is not None and buf[1]:
                 buf[2] = True
-                pend = []
+                pend_stop = True
         elif c == "W":
             got = a.split(".") if a else []
             want = [str(s) for s in handed]
